@@ -37,14 +37,16 @@ TECHNIQUE = (
 
 META = {
     "explanation": (
-        "All rules analyse parsers/directives.py after *inlining* its private single-exit helpers at their call sites (parameters bound, locals "
-        "renamed, `return e` turned into the assignment of the call statement; line numbers kept, nothing executed), so a function split into "
+        "All rules analyse parsers/directives.py after *inlining* its private helpers: single-exit helpers at `x = helper(...)` call sites (parameters "
+        "bound, locals renamed, `return e` turned into the assignment of the call statement) and helpers with any number of returns in tail position "
+        "(`return helper(...)`); line numbers kept, nothing executed, so a function split into "
         "helpers is judged as the one function it is equivalent to; roles (option-spec lookup, converter call, validation loop, result dict, "
         "warnings list, block text, remaining content) are found by data flow, never by name. "
         "R1: inter-procedural exception-escape analysis - only MarkupError can leave parse_directive_text (TokenizeError is caught where it is "
         "raised into, yaml errors incl. the plain ValueError of PyYAML's scalar constructors are caught, the option converter - a foreign callable "
         "looked up in option_spec - runs under `except Exception`); int(<cursor character>) in a tokenizer helper is discharged only by a "
-        "caller-side digit test with no cursor movement in between. "
+        "caller-side digit test with no cursor movement in between; `assert X is not None` in the consumer loop of the token generator is discharged only "
+        "by a typestate exploration of (producer CFG location x X is None/set) that never reaches the assert with X unset. "
         "R2: additional_options flow hop by hop from render_fence (fence_as_directive; value built from token.attrs, also through a helper) to the "
         "merge in the options parser; in the merge the operand holding the tokenized block is the later (winning) one (dict display, |, |=, update, "
         "dict(a, **b), M[k] = v with/without `k not in M`); behind the merge no store puts a possibly-default value under another key without an "
@@ -335,6 +337,207 @@ def _digit_precondition(corpus: Corpus, fq: str, text: str) -> str | None:
     return f"every call site of {fi.qualname} is guarded by a digit test on the cursor character and nothing moves the cursor before int()"
 
 
+# ---------------------------------------------------------------------------
+# `assert X is not None` in the consumer of a token generator: typestate proof over producer x consumer
+
+
+class _Fail(Exception):
+    pass
+
+
+def _yield_kinds(corpus: Corpus, fi: FunctionInfo, y: ast.expr | None) -> set[str]:
+    """Concrete class names of the object a ``yield <expr>`` hands over (constructor, or a package function whose
+    returns are constructors selected by a constant boolean keyword)."""
+    g = get_callgraph(corpus)
+    if not isinstance(y, ast.Call):
+        raise Unsupported("yield of a non-call")
+    d = dotted(y.func) or ""
+    ci = corpus.find_class(fi.module.resolve(d))
+    if ci is not None:
+        return {ci.name}
+    out: set[str] = set()
+    targets = [t for t in g.resolve_call(y, fi) if isinstance(t, FunctionInfo) and not t.is_lambda]
+    if not targets:
+        raise Unsupported(f"producer of {short(y, 40)} not resolved")
+    for t in targets:
+        consts = {k: v.value for k, v in bind_args(y, t).items() if isinstance(v, ast.Constant)}
+        a = t.node.args
+        pos = [x.arg for x in a.args]
+        for nm, dv in list(zip(pos[len(pos) - len(a.defaults) :], a.defaults)) + [(x.arg, dv) for x, dv in zip(a.kwonlyargs, a.kw_defaults) if dv is not None]:
+            if nm not in bind_args(y, t) and isinstance(dv, ast.Constant):
+                consts[nm] = dv.value
+        if any(simple_defs(t, nm) for nm in consts):
+            raise Unsupported("selector parameter is rebound")
+        tcfg = get_cfg(t)
+
+        def ret_kinds(e: ast.expr | None) -> set[str]:
+            if isinstance(e, ast.IfExp) and isinstance(e.test, ast.Name) and e.test.id in consts:
+                return ret_kinds(e.body if consts[e.test.id] else e.orelse)
+            if isinstance(e, ast.IfExp) and isinstance(e.test, ast.UnaryOp) and isinstance(e.test.op, ast.Not) and isinstance(e.test.operand, ast.Name) and e.test.operand.id in consts:
+                return ret_kinds(e.orelse if consts[e.test.operand.id] else e.body)
+            if isinstance(e, ast.Call):
+                c2 = corpus.find_class(t.module.resolve(dotted(e.func) or ""))
+                if c2 is not None:
+                    return {c2.name}
+            raise Unsupported(f"return value of {t.qualname} is not a constructor: {short(e, 40) if e is not None else None}")
+
+        for r in t.local_nodes():
+            if isinstance(r, ast.Return):
+                # returns excluded by the constant selector
+                if any(isinstance(x, ast.Name) and x.id in consts and bool(consts[x.id]) != pol for x, pol in tcfg.guards(r)):
+                    continue
+                out |= ret_kinds(r.value)
+        if t.is_generator():
+            raise Unsupported("producer call is itself a generator")
+    return out
+
+
+def _assert_cannot_fail(corpus: Corpus, fq: str, text: str) -> str | None:
+    """``assert X is not None`` inside ``for tok in <generator>(...)``: explore the producer's CFG (yields as events)
+    together with the abstract value of X (None / set) under the consumer's loop body; reason, or None."""
+    try:
+        fi = corpus.func(fq.replace("myst_parser.", "", 1))
+        asserts = [n for n in fi.local_nodes() if isinstance(n, ast.Assert) and short(n) == text]
+        if len(asserts) != 1:
+            return None
+        target = asserts[0]
+        t = target.test
+        if not (isinstance(t, ast.Compare) and len(t.ops) == 1 and isinstance(t.ops[0], ast.IsNot) and isinstance(t.left, ast.Name) and isinstance(t.comparators[0], ast.Constant) and t.comparators[0].value is None):
+            return None
+        X = t.left.id
+        loop = next((a for a in ancestors(target) if isinstance(a, (ast.For, ast.While))), None)
+        if not (isinstance(loop, ast.For) and isinstance(loop.target, ast.Name) and isinstance(loop.iter, ast.Call)):
+            return None
+        TOK = loop.target.id
+        g = get_callgraph(corpus)
+        prods = [p_ for p_ in g.resolve_call(loop.iter, fi) if isinstance(p_, FunctionInfo)]
+        if len(prods) != 1 or not prods[0].is_generator():
+            return None
+        prod = prods[0]
+        # X before the loop: every binding outside the loop body is None
+        outside = [(s_, v) for s_, v in simple_defs(fi, X) if not any(a is loop for a in ancestors(s_))]
+        if not outside or any(not (isinstance(v, ast.Constant) and v.value is None) for _, v in outside):
+            return None
+        if any(s_ is loop or any(a is loop for a in ancestors(s_)) for s_, _ in simple_defs(fi, TOK) if s_ is not loop):
+            return None
+        classes = {c.name: c for c in fi.module.classes.values()}
+
+        def is_sub(kind: str, cls: str) -> bool:
+            ci = classes.get(kind)
+            return ci is not None and any(x.name == cls for x in corpus.mro(ci))
+
+        def test(e: ast.expr, st: str, kind: str) -> bool:
+            if isinstance(e, ast.UnaryOp) and isinstance(e.op, ast.Not):
+                return not test(e.operand, st, kind)
+            if isinstance(e, ast.BoolOp):
+                vals = [test(v, st, kind) for v in e.values]
+                return all(vals) if isinstance(e.op, ast.And) else any(vals)
+            if isinstance(e, ast.Call) and dotted(e.func) == "isinstance" and len(e.args) == 2 and isinstance(e.args[0], ast.Name) and e.args[0].id == TOK:
+                cs = e.args[1].elts if isinstance(e.args[1], ast.Tuple) else [e.args[1]]
+                return any(is_sub(kind, (dotted(c) or "").rsplit(".", 1)[-1]) for c in cs)
+            if isinstance(e, ast.Compare) and len(e.ops) == 1 and isinstance(e.left, ast.Name) and e.left.id == X and isinstance(e.comparators[0], ast.Constant) and e.comparators[0].value is None and isinstance(e.ops[0], (ast.Is, ast.IsNot)):
+                return (st == "N") == isinstance(e.ops[0], ast.Is)
+            if isinstance(e, ast.Name) and e.id == X:
+                return st == "S"
+            raise Unsupported(f"test not modelled: {short(e, 40)}")
+
+        def run(stmts, st: str, kind: str) -> set[str]:
+            """States at the end of the iteration (any way of leaving the body); raises _Fail if the target assert can fail."""
+            cur = {st}
+            ends: set[str] = set()
+            for s_ in stmts:
+                nxt: set[str] = set()
+                for c in cur:
+                    if isinstance(s_, ast.If):
+                        br = s_.body if test(s_.test, c, kind) else s_.orelse
+                        a, e = run_inner(br, c, kind)
+                        nxt |= a
+                        ends |= e
+                    elif isinstance(s_, ast.Assert):
+                        ok = test(s_.test, c, kind)
+                        if not ok:
+                            if s_ is target:
+                                raise _Fail()
+                            continue  # another assert fails: path ends
+                        nxt.add(c)
+                    elif isinstance(s_, (ast.Assign, ast.AnnAssign)) and X in [x for t_ in (s_.targets if isinstance(s_, ast.Assign) else [s_.target]) for x in target_names(t_)]:
+                        v = s_.value
+                        if isinstance(v, ast.Constant) and v.value is None:
+                            nxt.add("N")
+                        elif isinstance(v, ast.Name) and v.id == TOK:
+                            nxt.add("S")
+                        else:
+                            raise Unsupported(f"binding of {X} not modelled: {short(s_, 40)}")
+                    elif isinstance(s_, (ast.Raise, ast.Return)):
+                        continue
+                    elif isinstance(s_, (ast.Continue, ast.Break)):
+                        ends.add(c)
+                    elif isinstance(s_, (ast.Expr, ast.Assign, ast.AnnAssign, ast.AugAssign, ast.Pass)):
+                        if any(isinstance(n, ast.Name) and n.id == X and isinstance(n.ctx, (ast.Store, ast.Del)) for n in ast.walk(s_)):
+                            raise Unsupported(f"binding of {X} not modelled")
+                        nxt.add(c)
+                    else:
+                        raise Unsupported(f"statement not modelled in the consumer loop: {type(s_).__name__}")
+                cur = nxt
+            return cur | ends
+
+        def run_inner(stmts, st, kind):
+            # like run(), but separates fall-through states from states that left the iteration
+            cur = {st}
+            ends: set[str] = set()
+            for s_ in stmts:
+                nxt: set[str] = set()
+                for c in cur:
+                    r = run([s_], c, kind)
+                    if isinstance(s_, (ast.Continue, ast.Break)):
+                        ends |= r
+                    elif isinstance(s_, ast.If):
+                        br = s_.body if test(s_.test, c, kind) else s_.orelse
+                        a, e = run_inner(br, c, kind)
+                        nxt |= a
+                        ends |= e
+                    else:
+                        nxt |= r
+                cur = nxt
+            return cur, ends
+
+        # the assert must sit directly in the loop body of a try-free path: find the statement list that is the loop body
+        body = loop.body
+        pcfg = get_cfg(prod)
+        kinds_at: dict = {}
+        for n in pcfg.nodes:
+            if isinstance(n, ast.stmt):
+                ys = [x for r_ in _header_roots(n) for x in ast.walk(r_) if isinstance(x, (ast.Yield, ast.YieldFrom))]
+                if not ys:
+                    continue
+                if len(ys) != 1 or not (isinstance(n, ast.Expr) and n.value is ys[0] and isinstance(ys[0], ast.Yield)):
+                    raise Unsupported("yield shape not modelled")
+                kinds_at[n] = _yield_kinds(corpus, prod, ys[0].value)
+        seen: set = set()
+        work = [("ENTRY", "N")]
+        while work:
+            node, st = work.pop()
+            if (node, st) in seen:
+                continue
+            seen.add((node, st))
+            outs = {st}
+            if node in kinds_at:
+                outs = set()
+                for kind in kinds_at[node]:
+                    outs |= run(body, st, kind)
+            for nx in pcfg.succ.get(node, []):
+                if nx in ("RAISE",) or (isinstance(nx, tuple) and nx[0] == "H"):
+                    if nx == "RAISE":
+                        continue
+                for o in outs:
+                    work.append((nx, o))
+        return f"explored {len(seen)} (producer location, {X} is None/set) pairs of {prod.qualname} x {fi.qualname}: whenever the asserting branch runs, {X} is set"
+    except _Fail:
+        return None
+    except (Unsupported, AnchorMissing):
+        return None
+
+
 class _Held(Report):
     """Report proxy: ValueError findings about int(<cursor character>) inside the option tokenizer are held back
     and re-judged with the caller-side digit precondition (the engine's digit guard is intra-procedural / by-name)."""
@@ -359,6 +562,13 @@ class _Held(Report):
                 if why:
                     self._real.ok(rule_id, key, site, "discharged: " + why)
                     return
+        mk = "|AssertionError|origin=myst_parser.parsers.options:"
+        if mk in key:
+            fq, _, text = key.split("|origin=", 1)[1].partition("|")
+            why = _assert_cannot_fail(self._corpus, fq, text)
+            if why:
+                self._real.ok(rule_id, key, site, "the assertion cannot fail: " + why)
+                return
         self._real.violation(rule_id, key, site, what, path)
 
 
